@@ -169,23 +169,28 @@ def should_suggest_type(value: Value) -> bool:
     return True
 
 
-def prepare_type(value: Value) -> Value:
-    """Simplify a type to turn it into a suggestion."""
+def prepare_type(value: Value, _seen: frozenset[int] = frozenset()) -> Value:
+    """Simplify a type to turn it into a suggestion.
+
+    *_seen* holds the ids of the container literals being expanded, so that a
+    container that contains itself does not recurse forever.
+
+    """
     if isinstance(value, AnnotatedValue):
-        return prepare_type(value.value)
+        return prepare_type(value.value, _seen)
     elif isinstance(value, SequenceValue):
         if value.typ is tuple:
             members = value.get_member_sequence()
             if members is not None:
                 return SequenceValue(
-                    tuple, [(False, prepare_type(elt)) for elt in members]
+                    tuple, [(False, prepare_type(elt, _seen)) for elt in members]
                 )
-        return GenericValue(value.typ, [prepare_type(arg) for arg in value.args])
+        return GenericValue(value.typ, [prepare_type(arg, _seen) for arg in value.args])
     elif isinstance(value, (TypedDictValue, CallableValue)):
         return value
     elif isinstance(value, GenericValue):
         # TODO maybe turn DictIncompleteValue into TypedDictValue?
-        return GenericValue(value.typ, [prepare_type(arg) for arg in value.args])
+        return GenericValue(value.typ, [prepare_type(arg, _seen) for arg in value.args])
     elif isinstance(value, VariableNameValue):
         return AnyValue(AnySource.unannotated)
     elif isinstance(value, KnownValue):
@@ -195,13 +200,15 @@ def prepare_type(value: Value) -> Value:
             return SubclassValue(TypedValue(value.val))
         elif callable(value.val):
             return value  # TODO get the signature instead and return a CallableValue?
-        value = replace_known_sequence_value(value)
-        if isinstance(value, KnownValue):
+        if id(value.val) in _seen:
             return TypedValue(type(value.val))
+        expanded = replace_known_sequence_value(value)
+        if isinstance(expanded, KnownValue):
+            return TypedValue(type(expanded.val))
         else:
-            return prepare_type(value)
+            return prepare_type(expanded, _seen | {id(value.val)})
     elif isinstance(value, MultiValuedValue):
-        vals = [prepare_type(subval) for subval in value.vals]
+        vals = [prepare_type(subval, _seen) for subval in value.vals]
         # Throw out Anys
         vals = [val for val in vals if not isinstance(val, AnyValue)]
         type_literals: list[tuple[Value, type]] = []
